@@ -210,7 +210,7 @@ def pack_standard(evs):
         elif ev == "populate":
             base.update(cls=e["cls"], n=int(e["n"]), N=int(e["N"]),
                         nodup=len(set(e["ids"])) == len(e["ids"]),
-                        perm=bool(e["indices_perm"]),
+                        perm=bool(e["indices_perm"]), accumulate=bool(e.get("accumulate", False)),
                         in_bounds=bool(e.get("in_bounds", True)), prior_finite=bool(e.get("prior_finite", True)),
                         logP_ok=bool(e.get("logP_ok", True)), logL_ok=bool(e.get("logL_ok", True)),
                         in_contour=bool(e.get("in_contour", True)),
